@@ -17,9 +17,7 @@ for h, spec in registry.HARNESSES.items():
 with kmirror.MirrorLock():
     kmirror.build_mirror()
     for (crate, feats), hl in groups.items():
-        ok, out = kmirror.codegen(crate, list(feats) if feats is not None else None)
-        if not ok:
-            print('codegen failed', crate); print(out[-3000:]); continue
+        kmirror.build_mirror(only_crate=crate)
         t0 = time.time()
         jobs = [dict(crate=crate, features=list(feats) if feats is not None else None, harness=kmirror.harness_path(registry.HARNESSES[h]['file'], registry.HARNESSES[h].get('fn', h)), timeout=900) for h in hl]
         rg = kmirror.run_group(crate, list(feats) if feats is not None else None, [j['harness'] for j in jobs], nproc=12, timeout=7200, harness_timeout=900)
